@@ -441,7 +441,8 @@ class C16(PropBase):
                 "(the loop with a `consumed == 0` fast path before the bookkeeping returns Ok after 15 of 23 bytes). "
                 "Binaries / extra debug info (second pass; fetch_lookup / locate_file, C16/FileFetch.v; every event list, EDrop anywhere): c16_file_entry_only_from_whole_body (a file appears in the cache only "
                 "at the path, only where nothing was, only after a non-error head and the clean end of the body, and is EXACTLY those bytes), c16_file_no_stray_tmp, c16_file_failed_leaves_cache, "
-                "c16_file_existing_never_replaced, c16_file_steps_are_source (statement list of fn fetch_lookup as translated = the list the transitions were written for); compared with the real locate_file on the kB/kD cases. "
+                "c16_file_existing_never_replaced, c16_file_raii_every_program + c16_file_model_is_ownership_semantics (the machine IS the ownership interpreter of C16/FileRaii.v on the step list that "
+                "translate/c16_fsops.py extracts from fn fetch_lookup; that interpreter leaves no temp file for EVERY program), c16_file_steps_are_source; compared with the real locate_file on the kB/kD cases. "
                 "In-process concurrency (second pass): c16_process_is_one_lookup -- C12's model of the Symbolizer's per-module slot (every task set, every executor schedule; "
                 "C12.Proofs.at_most_once) composed with [locate]: whatever runs concurrently in ONE process, the servers and the cache directory see for one module what ONE lookup does "
                 "(request log = a prefix of the server list), so the single-lookup theorems hold for the process; compared with the real Symbolizer + HttpSymbolSupplier on kS<n> cases "
